@@ -161,7 +161,15 @@ func (p *Parser) ParseProgram() *ast.Statements {
 		program.Statements = append(program.Statements, stmt)
 		p.nextToken()
 	}
-
+	// A string that isn't closed looks like the end of the input to the loop above when it starts a statement.
+	if p.l.UnterminatedString() && len(p.errors) == 0 {
+		if p.l.EOLEOF() == token.EOLT {
+			p.continuationNeeded = true // line mode: the rest may come with the next line.
+		} else {
+			_, lineNum := p.ErrorLine(false)
+			p.errors = append(p.errors, fmt.Sprintf("%d: string not closed", lineNum))
+		}
+	}
 	return program
 }
 
